@@ -196,6 +196,10 @@ def gen_request(rng, g, op=None, plain=False):
     if req["tags"] and rng.random() < 0.25:
         req["tags"] = rng.choice([["beta", "current"], ["current", "beta"], ["current"]])
     req["path"] = [0] if g.get("nstacks", 1) == 1 else rng.choice([[0], [0], [1, 0], [1, 0], [0, 1], [1]])
+    # the entry point: eups.app.setup called directly, or the command line of `eups_setup` (setupcmd.EupsSetup:
+    # option parsing, -j / -S / -k / -t / -E / -u / -Z glue, the printed command text)
+    req["cli"] = rng.random() < 0.3
+    req["just_flag"] = rng.random() < 0.5          # max_depth 0 is written -j (else -S 0)
     if req["op"] == "unsetup":
         # `unsetup p v`: the version is only compared with the set-up one (a warning)
         req["ver"] = {"v": rng.choice(vs)} if vs and rng.random() < 0.2 else None
@@ -574,6 +578,8 @@ def _do_request(Ss, ud, env, req):
             nest[0] -= 1
     M.Eups.setup = counted
     out = {"exc": None}
+    if req.get("cli"):
+        return _do_cli(M, U, Ss, req, out, nest)
     with contextlib.redirect_stderr(io.StringIO()), contextlib.redirect_stdout(io.StringIO()):
         E = M.Eups(readCache=False, quiet=1, keep=req["keep"], max_depth=req["max_depth"])
         vname = ver_text(req["ver"])
@@ -594,6 +600,66 @@ def _do_request(Ss, ud, env, req):
     out["env"] = dict(os.environ)
     out["aliases"] = dict(E.aliases)
     out["unaliased"] = sorted(k for k in E.oldAliases if k not in E.aliases)
+    out["nest"] = nest[1]
+    return out
+
+
+def cli_args(Ss, req):
+    """The argument vector of `eups_setup` for a request (what the shell function `setup` / `unsetup` passes on)."""
+    args = ["-q"]
+    if req["op"] == "unsetup":
+        args.append("-u")
+    if req["keep"]:
+        args.append("-k")
+    if req["max_depth"] == 0 and req.get("just_flag", True):
+        args.append("-j")                                   # --just is --max-depth 0
+    elif req["max_depth"] >= 0:
+        args += ["-S", str(req["max_depth"])]
+    for t in req["tags"]:
+        args += ["-t", t]
+    if req["inexact"]:
+        args.append("-E")
+    args += ["-Z", ":".join(Ss[k] for k in req_path(req))]
+    args.append(req["name"])
+    v = ver_text(req["ver"])
+    if v is not None:
+        args.append(v)
+    return args
+
+
+def _do_cli(M, U, Ss, req, out, nest):
+    """One command through setupcmd.EupsSetup(args).run(): the text it prints is what the shell evaluates."""
+    SC = common.eups_mod("setupcmd")
+    seen = {}
+    orig_select = M.Eups.selectVRO
+
+    def select(self, *a, **k):
+        r = orig_select(self, *a, **k)
+        seen["E"] = self
+        seen["vro"] = list(self.getPreferredTags())
+        return r
+    M.Eups.selectVRO = select
+    buf = io.StringIO()
+    with contextlib.redirect_stderr(io.StringIO()), contextlib.redirect_stdout(buf):
+        try:
+            status = SC.EupsSetup(cli_args(Ss, req), "eups_setup").run()
+            text = buf.getvalue()
+            cmds = text[:-1].split(";\n") if text.endswith("\n") and text != "\n" else ([] if text == "\n" else ["?" + text])
+            out["status"] = status
+            out["outcome"] = "notfound" if "false" in cmds else "ok"
+            out["cmds"] = cmds
+        except _TooDeep:
+            out["outcome"] = "deep"
+            out["cmds"] = None
+        except Exception as e:  # noqa
+            out["outcome"] = "raised"
+            out["exc"] = type(e).__name__
+            out["cmds"] = None
+    E = seen.get("E")
+    out["vro"] = seen.get("vro", [])
+    out["env"] = dict(os.environ)
+    out["aliases"] = dict(E.aliases) if E is not None else {}
+    out["unaliased"] = sorted(k for k in E.oldAliases if k not in E.aliases) if E is not None else []
     out["nest"] = nest[1]
     return out
 
@@ -1211,6 +1277,7 @@ def evaluate(ctx, pid, cases, stats, workers=12, extra=None):
                 raise common.InfraError("driver rejected a request: %s" % mo["outcome"])
             ctx.hist("outcome=" + im["outcome"])
             ctx.hist("op=%s" % req["op"])
+            ctx.hist("entry=%s" % ("setupcmd" if req.get("cli") else "app.setup"))
             if im.get("deep") or mo.get("deep"):
                 ctx.hist("recursion_limit")
             diffs = compare(im, mo)
